@@ -33,7 +33,24 @@ fn cfg_opts(c: &Value) -> ExecOpts {
     }
 }
 
+/// One query in its own task: a panic in the engine is data for this run (reported with the configuration), not the end of the case.
 async fn run_sql(ctx: &SessionContext, sql: &str) -> Value {
+    let (ctx, sql) = (ctx.clone(), sql.to_string());
+    match tokio::spawn(async move { run_sql_inner(&ctx, &sql).await }).await {
+        Ok(v) => v,
+        Err(e) => {
+            let msg = if e.is_panic() {
+                let p = e.into_panic();
+                p.downcast_ref::<String>().cloned().or_else(|| p.downcast_ref::<&str>().map(|s| s.to_string())).unwrap_or_else(|| "panic".into())
+            } else {
+                format!("{e}")
+            };
+            json!({"err": format!("PANIC: {msg}"), "panic": true})
+        }
+    }
+}
+
+async fn run_sql_inner(ctx: &SessionContext, sql: &str) -> Value {
     match ctx.sql(sql).await {
         Err(e) => json!({"err": format!("plan: {e}")}),
         Ok(df) => match df.collect().await {
